@@ -15,6 +15,7 @@ import (
 	"github.com/beevik/etree"
 
 	"verif/harness/mon"
+	"verif/harness/sim"
 )
 
 func init() {
@@ -131,7 +132,19 @@ func checkRedirectURL(out, idpURL, relay, wantDoc string, signing bool, ksp *Key
 		}
 		want := ksp.Certs[ksp.WantSign]
 		sad, _ := url.QueryUnescape(sa)
-		if sad != ExpectedSigURI(want.Key, hash) {
+		if hash == 0 {
+			// the configured algorithm cannot be used with this key (or is unknown): whatever the library fell back to,
+			// SigAlg must name an algorithm of the signing key's type and the signature must verify under it
+			found := false
+			for _, h := range []crypto.Hash{crypto.SHA1, crypto.SHA256, crypto.SHA384, crypto.SHA512} {
+				if ExpectedSigURI(want.Key, h) == sad {
+					hash, found = h, true
+				}
+			}
+			if !found {
+				return "sigalg-not-usable-with-key", fmt.Sprintf("SigAlg %q names no algorithm the %s key can have signed with", sad, ksp.WantSign), ""
+			}
+		} else if sad != ExpectedSigURI(want.Key, hash) {
 			return "sigalg-mismatch", fmt.Sprintf("SigAlg %q, expected %q", sad, ExpectedSigURI(want.Key, hash)), ""
 		}
 		sgd, err := url.QueryUnescape(sg)
@@ -190,6 +203,14 @@ func runC14(c *mon.Ctx) {
 		want := ksp.Certs[ksp.WantSign]
 		algs := SigAlgsFor(want.Key)
 		alg := algs[r.IntN(len(algs))]
+		if r.IntN(4) == 0 {
+			// a setting the key cannot serve: the other key type's identifiers, an unknown or malformed identifier
+			other := sim.K("spsignec")
+			if !want.Key.IsRSA() {
+				other = sim.K("spsign")
+			}
+			alg = SigAlgChoice{URI: pick(r, []string{SigAlgsFor(other)[1+r.IntN(4)].URI, "http://www.w3.org/2007/05/xmldsig-more#sha256-rsa-MGF1", "urn:unknown:alg", "rsa-sha256", " "}), Hash: 0}
+		}
 		sp.SignAuthnRequestsAlgorithm = alg.URI
 		cn := pick(r, CanonChoices())
 		sp.SignAuthnRequestsCanonicalizer = cn.Obj
